@@ -405,8 +405,21 @@ br_ssl_engine_set_buffers_bidi(br_ssl_engine_context *rc,
 	if (ibuf == NULL) {
 		if (rc->ibuf == NULL) {
 			br_ssl_engine_fail(rc, BR_ERR_BAD_PARAM);
+		} else {
+			/*
+			 * Keep the buffers, but go through the setup
+			 * again: the fragment length limits may have
+			 * been lowered while negotiating with the peer
+			 * of the previous connection, and must not be
+			 * inherited by the next one.
+			 */
+			ibuf = rc->ibuf;
+			ibuf_len = rc->ibuf_len;
+			obuf = rc->obuf;
+			obuf_len = rc->obuf_len;
 		}
-	} else {
+	}
+	if (ibuf != NULL) {
 		unsigned u;
 
 		rc->ibuf = ibuf;
